@@ -95,9 +95,10 @@ def drv_rows(c, ctx, col):
     rows = domain_rows(train_idx, formula)
     sel = c.seq(rows, ctx["L"], 1)
     via = c.pick(["spec.get_model_matrix", "model_matrix"])
+    adtype = c.pick(ctx.get("adtypes", ["object"]))
     keep_index = c.flag()  # follow-up frame keeps the pool's index labels (duplicates, arbitrary order) instead of a fresh RangeIndex
-    key = "rows %r train=%s output=%s sel=%s via=%s keep_index=%s" % (formula, list(train_idx), output, sel, via, keep_index)
-    detail = {"formula": formula, "training_rows": list(train_idx), "selection": sel, "output": output, "via": via, "keep_index": keep_index,
+    key = "rows %r train=%s output=%s sel=%s via=%s keep_index=%s A_dtype=%s" % (formula, list(train_idx), output, sel, via, keep_index, adtype)
+    detail = {"formula": formula, "training_rows": list(train_idx), "selection": sel, "output": output, "via": via, "keep_index": keep_index, "followup_A_dtype": adtype,
               "pool": POOL.to_dict("list")}
     with warnings.catch_warnings():
         warnings.simplefilter("ignore")
@@ -113,6 +114,13 @@ def drv_rows(c, ctx, col):
         try:
             whole = apply_spec(ref_spec, dom, "spec.get_model_matrix")
             sub = POOL.iloc[sel] if keep_index else POOL.iloc[sel].reset_index(drop=True)
+            if adtype != "object":
+                # the follow-up column arrives with a categorical dtype of its own (a legitimate way of holding the same values)
+                sub = sub.copy()
+                present = sorted(set(sub["A"]))
+                cats = {"category-training-levels": sorted(set(tr["A"])), "category-present-levels-only": present,
+                        "category-reversed-order": sorted(set(tr["A"]), reverse=True)}[adtype]
+                sub["A"] = pd.Categorical(list(sub["A"]), categories=cats)
             got = apply_spec(spec, sub, via)
         except Exception as e:  # noqa
             col.violation(key, dict(detail, error="%s: %s" % (type(e).__name__, str(e)[:300])), sig="apply-raised:" + type(e).__name__)
@@ -208,6 +216,10 @@ def subchecks(tier, seed):
     return [
         Sub("row-locality", drv_rows, {"formulas": fs, "trainings": tr, "outputs": ["pandas"] if quick else ["pandas", "sparse"], "L": 2 if quick else 3},
             shard_depth=2, bounds={"formulas": len(fs), "training_sets": len(tr), "max_selection_length": 2 if quick else 3, "pool_rows": 5}),
+        Sub("row-locality-categorical-dtype", drv_rows, {"formulas": [f for f in fs if "A" in f], "trainings": tr[:2] if quick else tr[:12], "outputs": ["pandas"],
+                                                         "L": 2, "adtypes": ["category-training-levels", "category-present-levels-only", "category-reversed-order"]},
+            shard_depth=2, bounds={"formulas": "those using A", "followup_dtype_of_A": ["category (training levels)", "category (present levels only)", "category (reversed order)"],
+                                   "max_selection_length": 2}),
         Sub("histories", drv_hist, {"formulas": fs, "trainings": tr[:1] if quick else tr[:10], "outputs": ["pandas"] if quick else ["pandas", "numpy", "sparse"],
                                     "D": 2 if quick else 3},
             shard_depth=2, bounds={"formulas": len(fs), "training_sets": 1 if quick else 10, "max_events": 2 if quick else 3,
